@@ -107,11 +107,52 @@ def build_stmt(spec: list, funcs: dict[str, Any] | None = None):
     raise ValueError(f"unknown spec {spec!r}")
 
 
+def _build_with_builder(nq: int, nb: int, specs: list, funcs):
+    """A third of the circuits that consist of default named instructions only (chosen by a hash of the specification,
+    so that a case replays) are built through CircuitBuilder — H and I under their alias names now and then — instead
+    of adding statements to an IR: the circuit must be the same. Anything the builder refuses (indices outside the
+    registers, ...) falls back to the direct construction, which is what those cases are about."""
+    import zlib
+
+    if funcs is not None or not specs or nq < 1:
+        return None
+    h = zlib.crc32(repr((nq, nb, specs)).encode())
+    if h % 3 != 0 or any(sp[0] not in ("named", "measure", "measure_z", "reset", "comment") for sp in specs):
+        return None
+    try:
+        from opensquirrel import CircuitBuilder
+        from opensquirrel.ir import Bit, Float, Int
+
+        b = CircuitBuilder(nq, nb)
+        for i, sp in enumerate(specs):
+            k = sp[0]
+            if k == "named":
+                name, args = sp[1], sp[2]
+                sig = GATE_SIG.get(name)
+                if sig is None or len(sig) != len(args):
+                    return None
+                conv = [Float(a) if kd == "f" else (Int(a) if kd == "i" and (h >> i) % 2 else a) for a, kd in zip(args, sig)]
+                alias = {"H": "Hadamard", "I": "Identity"}.get(name)
+                getattr(b, alias if alias and (h >> (i + 3)) % 2 else name)(*conv)
+            elif k in ("measure", "measure_z"):
+                getattr(b, k)(sp[1], Bit(sp[2]))
+            elif k == "reset":
+                b.reset(sp[1])
+            else:
+                b.comment(sp[1])
+        return b.to_circuit()
+    except Exception:  # noqa: BLE001
+        return None
+
+
 def build_circuit(nq: int, nb: int, specs: list, funcs: dict[str, Any] | None = None):
     from opensquirrel.circuit import Circuit
     from opensquirrel.ir import IR, Comment, Gate, Measure, Reset
     from opensquirrel.register_manager import BitRegister, QubitRegister, RegisterManager
 
+    built = _build_with_builder(nq, nb, specs, funcs)
+    if built is not None:
+        return built
     ir = IR()
     for sp in specs:
         s = build_stmt(sp, funcs)
